@@ -75,6 +75,9 @@ def primitive_alphabet(n, env, level="full"):
     if n >= 3:
         ops.append(("sw", ((0, 0), (1, 2), (2, 1))))            # complete dict with a fixed point
     ops.append(("sw", ()))                                      # the empty dictionary: nothing moves
+    ops.append(("psnp", n - 1, "int64", 2))                     # a phase that is a numpy integer (float32: DESIGN 6)
+    if n >= 2:
+        ops.append(("blk", n - 2))                              # a grouped block: bs, barrier, ps (components after a barrier)
     for k in (2, 3):
         if k <= n:
             for m in range(0, n - k + 1):
@@ -130,6 +133,8 @@ def static_legal(op, n, env):
         return m_ok(op[1]) and m_ok(op[1] + 1)
     if k == "ps":
         return m_ok(op[1]) and l_ok(op[3])
+    if k == "psnp":
+        return m_ok(op[1])
     if k == "loss":
         return m_ok(op[1]) and l_ok(op[2])
     if k == "sw":
@@ -140,6 +145,8 @@ def static_legal(op, n, env):
         return op[1] in env.U and isinstance(op[2], int) and 0 <= op[2] and op[2] + op[1] <= n
     if k == "uni_bad":
         return False
+    if k == "blk":
+        return isinstance(op[1], int) and 0 <= op[1] and op[1] + 2 <= n
     if k == "bar":
         return op[1] is None or all(m_ok(m) for m in op[1])
     if k in ("plus_self", "plus_lib", "rplus_lib"):
@@ -170,6 +177,9 @@ def apply_impl(c, op, env):
             c.bs(op[1], reflectivity=op[2])
     elif k == "ps":
         c.ps(op[1], op[2], loss=op[3])
+    elif k == "psnp":                # the phase as a numpy scalar of the named type (element of an integer / float32 array)
+        v = getattr(np, op[2])(op[3])
+        c.ps(op[1], lw.Parameter(v) if len(op) > 4 and op[4] else v)
     elif k == "loss":
         c.loss(op[1], op[2])
     elif k == "sw":
@@ -186,6 +196,10 @@ def apply_impl(c, op, env):
         c.add(sub, op[2], group=op[3])
         sub.ps(0, 1.234)             # later edit of the added object must not reach the parent
         arr[:] = 7
+    elif k == "blk":
+        sub = lw.Circuit(2)
+        sub.bs(0, reflectivity=env.R2); sub.barrier([0, 1]); sub.ps(1, env.PH[2]); sub.bs(1, 0, reflectivity=env.R[1], convention="H")
+        c.add(sub, op[1], group=True, name="block")
     elif k == "uni_bad":
         m = np.array([[1, 0.2], [0, 1]], dtype=complex)
         c.add(lw.Unitary(m), op[2])
@@ -220,12 +234,17 @@ def apply_ref(r, op, env):
         r.ps(op[1], op[2])
         if op[3] > 0:
             r.loss(op[1], op[3])
+    elif k == "psnp":
+        r.ps(op[1], float(getattr(np, op[2])(op[3])))
     elif k == "loss":
         r.loss(op[1], op[2])
     elif k == "sw":
         r.swaps(dict(op[1]))
     elif k == "uni":
         r.unitary(op[2], env.U[op[1]])
+    elif k == "blk":
+        m = op[1]
+        r.bs(m, m + 1, env.R2); r.ps(m + 1, env.PH[2]); r.bs(m + 1, m, env.R[1], "H")
     elif k == "bar":
         pass
     elif k == "plus_self":
@@ -368,6 +387,13 @@ def emulator_family(env, tier="quick"):
                     "ops": [("ps", 0, env.PH[0], 0), ("sw", cyc), ("ps", n - 1, env.PH[1], 0)]})
         fam.append({"name": "n%d/perm_her" % n, "n": n,
                     "ops": [("sw", cyc), ("ps", 0, env.PH[2], 0), ("her", 1, 0, 1 % n)]})
+        # block-diagonal: the last mode only carries a phase (decoupled from the rest); with a lossy spectator too
+        fam.append({"name": "n%d/perm_decoupled" % n, "n": n,
+                    "ops": [("bs", 0, 1, env.R[1], "Rx", 0), ("ps", n - 1, env.PH[1], 0), ("ps", 0, env.PH[0], 0)]
+                           + ([("bs", 1, 0, env.R2, "H", 0)] if n > 2 else [("ps", 1, env.PH[2], 0)])})
+        if n >= 3:
+            fam.append({"name": "n%d/perm_decoupled_lossy" % n, "n": n,
+                        "ops": [("bs", 0, 1, env.R2, "Rx", 0), ("ps", n - 1, env.PH[2], env.L2), ("ps", n - 1, env.PH[0], 0)]})
         # internal ancillas from heralded sub-circuits (+ an external herald next to them)
         fam.append({"name": "n%d/sub_h3mid" % n, "n": n,
                     "ops": [("add", "h3mid", 0, False), ("bs", 0, n - 1, env.R[1], "Rx", 0)]})
